@@ -450,6 +450,8 @@ def concretize(p, perm=0, style=None):
             if it.get("um", {}).get("m") == "yes":
                 u = it["um"]
                 txt = ("T%d" % u["lib"]) if u["whole"] else "T%d.macros['%s']" % (u["lib"], u["mname"])
+                if u.get("mvar"):
+                    txt = "T%d.macros[%s]" % (u["lib"], u["mvar"])
                 form = (perm + i) % 3
                 if form == 1:
                     txt = "nosuchname | python: " + txt          # a prefixed alternative has a token of its own
